@@ -55,3 +55,22 @@ def replay_with(judge):
         tr = E.run_case(case)
         judge(tr)
     return replay
+
+
+def run_pools(profile, rec, known, n_examples, hseed):
+    """Real worker pools (all five backends) with delay tables: completion order is perturbed, not owned."""
+    from .. import workers as W
+    progcheck.setup_process()
+
+    def check(case):
+        out = W.run_pool_case(case)
+        W.judge_pool(case, out)
+        nt = case['n'] >= 5 and case['workers'] >= 2 and len(set(case['delays'])) > 1 or profile != 'plain'
+        cls = {'pool:' + case['backend'], 'pool-api:' + case['api'], 'pool-run'}
+        if case.get('fn_fail'):
+            cls.add('pool-function-fails')
+        if case.get('stop') is not None:
+            cls.add('pool-early-stop')
+        rec.case(dict(case, part='pools'), bool(nt), cls, size=case['n'])
+
+    return drive(check, W.st_pool_case(profile), n_examples, rec, known, hseed, shrink=False)
